@@ -213,6 +213,21 @@ def run(res, tier, seed, driver_ok):
                 bad('numericalJacobian', 'numerical Jacobian differs from the analytic one', {'x0': x0.tolist()}, G.maxdiff(Jn, Ja))
         if n < 2:
             res.sample({'a': list(a), 'b': list(b), 'point': list(pt), 'delta': delta, 'steps': steps})
+    # ---- samplers, every grid: unitSphere's output depends on the point count only through k = round(sqrt(n)), so n = k*k for k = 1..45 covers
+    # every count in 1..2000; fiboSphere is run on every count up to 64 and a spread of larger ones
+    for k_ in range(1, 46):
+        res.evaluations += 1
+        us = np.asarray(fsr.unitSphere(k_ * k_), dtype=float)
+        nr = np.linalg.norm(us, axis=1) if us.ndim == 2 and us.shape[1] == 3 else np.array([np.nan])
+        if not np.all(np.isfinite(nr)) or np.max(np.abs(nr - 1)) > tol:
+            bad('samplers', 'sphere samplers do not return unit vectors', {'function': 'unitSphere', 'n': k_ * k_, 'grid': k_},
+                {'rows_not_unit': int(np.sum(~(np.abs(nr - 1) <= tol))), 'rows': int(len(nr))})
+    for n_ in list(range(1, 65)) + [rnd.randint(65, 2000) for _ in range(12)]:
+        res.evaluations += 1
+        fb = np.asarray(fsr.fiboSphere(n_), dtype=float)
+        nr = np.linalg.norm(fb, axis=1) if fb.ndim == 2 and fb.shape[1] == 3 else np.array([np.nan])
+        if fb.shape != (n_, 3) or not np.all(np.isfinite(nr)) or np.max(np.abs(nr - 1)) > tol:
+            bad('samplers', 'sphere samplers do not return unit vectors', {'function': 'fiboSphere', 'n': n_}, {'shape': list(fb.shape)})
     # ---- correspondence
     ncmp = 0
     if driver_ok:
